@@ -105,7 +105,9 @@ impl SymbolsExportsModule {
     }
     pub fn set_default_export(&mut self, export: Rc<SymbolExportDefault>) {
         if self.export_default.is_some() {
-            panic!("Default export already set");
+            // a second `export default` is an error in TypeScript; binding must not abort the whole
+            // compilation for it: the first one stays
+            return;
         }
         self.export_default = Some(export);
     }
